@@ -77,7 +77,7 @@ def import_closure(mods):
 STALE = []
 
 # which Lean driver module answers for a harness stream id (default: Driver/<id>.lean)
-DRIVER_OF = {"C01": "C01", "C14": "C01", "C05": "C01", "C10S": "C01", "C20S": "C01", "C05CLI": "C05Cli", "C07CLI": "C05Cli"}
+DRIVER_OF = {"C01": "C01", "C14": "C01", "C05": "C01", "C10S": "C01", "C20S": "C01", "C07S": "C01", "C05CLI": "C05Cli", "C07CLI": "C05Cli"}
 
 
 def prop_modules(prop, mod=None):
@@ -205,7 +205,7 @@ def lean_build(prop, thorough=False, extra=(), mod=None):
 
 
 # cargo feature of the harness crate that holds the module answering for a harness stream id
-FEATURE_OF = {"C01": "c01", "C14": "c01", "C05": "c01", "C10S": "c01", "C20S": "c01", "C05CLI": None, "C07CLI": None}
+FEATURE_OF = {"C01": "c01", "C14": "c01", "C05": "c01", "C10S": "c01", "C20S": "c01", "C07S": "c01", "C05CLI": None, "C07CLI": None}
 
 
 def harness_build(prop=None, mod=None):
